@@ -183,6 +183,9 @@ def run(rep, work, tier, seed):
         "integer virtual time; deadlines 1..MaxDeadline; exact ties are modelled as 'either outcome'",
         "KeyboardInterrupt / SystemExit raised by the function are outside the model (asyncio re-raises them out of the loop)",
     ]
+    # the decorator stacked with the others (Stack.tla): every layer acts on the layer below it
+    from props.stack_common import stack_legs
+    stack_legs(rep, work, tier, "timeout")
     return rep.finish(exhaustive=True,
                       rule="all interleavings of {time advance (optionally with the function finishing in that instant), "
                            "function finish x 4 outcomes, caller cancel} for every deadline and obey/ignore choice within "
@@ -191,6 +194,9 @@ def run(rep, work, tier, seed):
 
 def replay(rep, record):
     from harness.graph import parse_label
+    if record.get("spec") == "Stack":
+        from props.stack_common import replay_stack
+        return replay_stack(record)
     d = TimeoutDriver()
     d.reset(record["init"])
     print("  scenario: T =", record["init"]["T"], "obey =", record["init"]["obey"])
